@@ -300,6 +300,7 @@ func main() {
 	scale := flag.Float64("scale", 1, "multiply run counts (development)")
 	printTrace := flag.Bool("print", false, "with -replay: print the event trace")
 	engineFilter := flag.String("engine", "", "with -selftest: only this engine")
+	trace := flag.Int64("trace", -1, "with -property: run the n-th run of the seed verbosely and print its event log")
 	flag.Parse()
 	if t := os.Getenv("VERIF_TIER"); t != "" && *tier == "quick" {
 		*tier = t
@@ -333,6 +334,8 @@ func main() {
 		code = doReplay(b, *replay, *printTrace)
 	case *selftest != "":
 		code = doSelftest(b, *selftest, seed, *workers, *engineFilter)
+	case *prop != "" && *trace >= 0:
+		code = doTrace(b, *prop, *tier, seed, *trace)
 	case *prop != "":
 		code = doCheck(b, *prop, *tier, seed, *workers, *scale)
 	default:
@@ -405,6 +408,28 @@ func doReplay(b *build, path string, print bool) int {
 	fmt.Printf("replayed: %s/%s %s\n", r.Replayed.Property, r.Replayed.Invariant, r.Replayed.Message)
 	fmt.Printf("VIOLATION property=%s replay=%s\n", r.Replayed.Property, path)
 	return 1
+}
+
+func doTrace(b *build, id, tier string, seed, n int64) int {
+	for _, p := range props {
+		if p.ID != id {
+			continue
+		}
+		bt := p.Batches[0]
+		e, _ := engineByName(bt.Engine)
+		bin, err := b.buildEngine(e)
+		if err != nil {
+			fatal(2, "%v", err)
+		}
+		cmd := exec.Command(bin, "-test.run", "^"+e.TestName+"$", "-test.timeout", "0")
+		cmd.Env = append(os.Environ(), "VERIF_MODE=trace", "VERIF_SEED="+strconv.FormatInt(seed, 10), "VERIF_FIRST="+strconv.FormatInt(n, 10), "VERIF_PROPS="+id, "VERIF_TIER="+tier, "VERIF_VARIANT="+bt.Variant,
+			"VERIF_KNOWN="+filepath.Join(verif, "known_findings.json"))
+		cmd.Stdout, cmd.Stderr = os.Stdout, os.Stderr
+		_ = cmd.Run()
+		return 0
+	}
+	fatal(2, "no such property")
+	return 2
 }
 
 type agg struct {
